@@ -51,6 +51,12 @@ def unwrap_ok_alloc(p):
     return None
 
 
+def bind_of(p, variant, field):
+    """p is the binding of variant.field -- or, in an arm with an or-pattern, one of the same-named bindings of the listed variants"""
+    alts = p[1] if p[0] == "alt" else (p,)
+    return all(a[0] == "bind" and a[2] == field for a in alts) and any(P.last(a[1]) == variant for a in alts)
+
+
 def is_rec_map(p, fname, variant, field):
     """p == <variant.field>.iter().map(|e| fname(.. e ..)).collect()[?]  (order preserving, complete)"""
     p = P.peel(p)
@@ -63,7 +69,7 @@ def is_rec_map(p, fname, variant, field):
     if not (it[0] == "mcall" and it[1] in ("iter", "into_iter")):
         return False, f"map() receiver is .{it[1] if it[0]=='mcall' else it[0]}(), expected .iter()"
     src = it[2]
-    if not (src[0] == "bind" and P.last(src[1]) == variant and src[2] == field):
+    if not bind_of(src, variant, field):
         return False, f"iterates {A.show(src)}, expected {variant}.{field}"
     return True, ""
 
@@ -96,9 +102,7 @@ def tr_check(repo, res, rule="TR"):
 
     def rec_of(p, variant, field):
         p = P.peel(p)
-        return p[0] == "call" and P.last(p[1]) == me and any(
-            a[0] == "bind" and P.last(a[1]) == variant and a[2] == field for a in p[2]
-        )
+        return p[0] == "call" and P.last(p[1]) == me and any(bind_of(a, variant, field) for a in p[2])
 
     def key(v):
         return f"{rule}:{fq}:{v}"
